@@ -153,3 +153,211 @@ Proof.
     destruct (tset_go_present vs k v x (y :: r) IH i (length (y :: r) =? 1)%nat fresh H) as (rv & ev & E).
     rewrite E. simpl. repeat split; reflexivity.
 Qed.
+
+(* ================================================================== *)
+(* 4. States: tree and allocation counter (the event log is ignored)   *)
+(* ================================================================== *)
+Definition core (s : st) : tree Z * nat := (t_tree s, t_fresh s).
+
+Lemma core_tree : forall s1 s2, core s1 = core s2 -> t_tree s1 = t_tree s2.
+Proof. intros s1 s2 E. unfold core in E. injection E as E1 E2. exact E1. Qed.
+
+Lemma do_set_core : forall (vs vs' : bool) (s1 s2 : st) (k v : Z) (iu : bool),
+  core s1 = core s2 ->
+  core (fst (fst (do_set vs ml mi s1 k v iu))) = core (fst (fst (do_set vs' ml mi s2 k v iu))) /\
+  is1 (snd (fst (do_set vs ml mi s1 k v iu))) = is1 (snd (fst (do_set vs' ml mi s2 k v iu))).
+Proof.
+  intros vs vs' s1 s2 k v iu E. unfold core in E. injection E as Et Ef.
+  unfold do_set, T_set, core. simpl. rewrite Et, Ef.
+  pose proof (tset_vs vs vs' k v iu (t_tree s2) (t_fresh s2)) as S.
+  unfold score in S. injection S as S1 S2 S3.
+  rewrite S1, S2, S3. split; reflexivity.
+Qed.
+
+Lemma do_set_present : forall (vs : bool) (s : st) (k v x : Z),
+  tget Z (t_tree s) k = Some x ->
+  core (fst (fst (do_set vs ml mi s k v true))) = core s.
+Proof.
+  intros vs s k v x H. unfold do_set, T_set, core. simpl.
+  destruct (tset_present vs k v x (t_tree s) (t_fresh s) H) as (E1 & E2 & _).
+  rewrite E1, E2. reflexivity.
+Qed.
+
+Lemma del_failed_core : forall (ir : bool) (s : st) (k : Z), core (del_failed ir s k) = core s.
+Proof.
+  intros ir s k. destruct s as [t f e]. unfold del_failed, core. simpl.
+  destruct t as [i l | i [|x r]]; destruct ir; reflexivity.
+Qed.
+
+Lemma quirk_core : forall (ir : bool) (s : st) (stt : status),
+  core (set_nochange_quirk ir s stt) = core s.
+Proof.
+  intros ir s stt. destruct s as [t f e]. unfold set_nochange_quirk, core. simpl.
+  destruct stt; try reflexivity.
+  destruct t as [i l | i [|[z [j l | j kk]] [|y r]]]; try reflexivity.
+  destruct ir; reflexivity.
+Qed.
+
+Lemma do_clear_core : forall (ir ir' : bool) (s1 s2 : st),
+  core s1 = core s2 -> core (do_clear ir s1) = core (do_clear ir' s2).
+Proof.
+  intros ir ir' s1 s2 E. destruct s1 as [t1 f1 e1]. destruct s2 as [t2 f2 e2].
+  unfold core in E. simpl in E. injection E as Et Ef. subst t2 f2.
+  unfold do_clear, core. simpl.
+  destruct t1 as [i [|p l] | i [|x r]]; reflexivity.
+Qed.
+
+Lemma do_del_core : forall (s1 s2 : st) (k : Z),
+  core s1 = core s2 ->
+  match do_del s1 k, do_del s2 k with
+  | Some (a, x), Some (b, y) => core a = core b /\ x = y
+  | None, None => True
+  | _, _ => False
+  end.
+Proof.
+  intros s1 s2 k E. destruct s1 as [t1 f1 e1]. destruct s2 as [t2 f2 e2].
+  unfold core in E. simpl in E. injection E as Et Ef. subst t2 f2.
+  unfold do_del, T_del. simpl.
+  destruct (tdel Z t1 k) as [r|]; [|exact I].
+  unfold core. simpl. split; reflexivity.
+Qed.
+
+Lemma has_core : forall (s1 s2 : st) (k : Z), core s1 = core s2 -> has s1 k = has s2 k.
+Proof. intros s1 s2 k E. unfold has. rewrite (core_tree s1 s2 E). reflexivity. Qed.
+
+Lemma discard_core : forall (ir ir' : bool) (s1 s2 : st) (k : Z),
+  core s1 = core s2 -> core (discard ir s1 k) = core (discard ir' s2 k).
+Proof.
+  intros ir ir' s1 s2 k E. unfold discard. rewrite (has_core s1 s2 k E).
+  destruct (has s2 k).
+  - pose proof (do_del_core s1 s2 k E) as D.
+    destruct (do_del s1 k) as [[a x]|]; destruct (do_del s2 k) as [[b y]|];
+      try contradiction.
+    + destruct D as [D _]. exact D.
+    + exact E.
+  - destruct ir, ir'; rewrite ?del_failed_core; exact E.
+Qed.
+
+Lemma add_core : forall (vs vs' ir ir' : bool) (s1 s2 : st) (k : Z),
+  core s1 = core s2 -> core (add vs ir ml mi s1 k) = core (add vs' ir' ml mi s2 k).
+Proof.
+  intros vs vs' ir ir' s1 s2 k E. unfold add.
+  pose proof (do_set_core vs vs' s1 s2 k 0 true E) as [D _].
+  destruct (do_set vs ml mi s1 k 0 true) as [[a st1] rv1].
+  destruct (do_set vs' ml mi s2 k 0 true) as [[b st2] rv2].
+  simpl in D. rewrite !quirk_core. exact D.
+Qed.
+
+Lemma fold_core : forall (A : Type) (f g : st -> A -> st),
+  (forall a s1 s2, core s1 = core s2 -> core (f s1 a) = core (g s2 a)) ->
+  forall (l : list A) (s1 s2 : st),
+  core s1 = core s2 -> core (fold_left f l s1) = core (fold_left g l s2).
+Proof.
+  intros A f g H l. induction l as [|a r IH]; intros s1 s2 E; simpl.
+  - exact E.
+  - apply IH. apply H. exact E.
+Qed.
+
+(* ================================================================== *)
+(* 5. One call, then a history                                         *)
+(* ================================================================== *)
+Lemma step_core : forall (vs vs' : bool) (s1 s2 : st) (c : call),
+  is_iand c = false -> core s1 = core s2 ->
+  core (fst (step vs true ml mi s1 c)) = core (fst (step vs' false ml mi s2 c)).
+Proof.
+  intros vs vs' s1 s2 c Hc E.
+  pose proof (core_tree s1 s2 E) as Et.
+  assert (Hset : forall k v iu,
+    core (fst (fst (do_set vs ml mi s1 k v iu))) = core (fst (fst (do_set vs' ml mi s2 k v iu)))).
+  { intros k v iu. apply (do_set_core vs vs' s1 s2 k v iu E). }
+  assert (Hdel : forall (k : Z) (o1 o2 : Z -> out) (f1 f2 : st) (e1 e2 : out),
+    core f1 = core f2 ->
+    core (fst (match do_del s1 k with Some (s', x) => (s', o1 x) | None => (f1, e1) end)) =
+    core (fst (match do_del s2 k with Some (s', x) => (s', o2 x) | None => (f2, e2) end))).
+  { intros k o1 o2 f1 f2 e1 e2 Ef. pose proof (do_del_core s1 s2 k E) as D.
+    destruct (do_del s1 k) as [[a x]|]; destruct (do_del s2 k) as [[b y]|]; try contradiction.
+    - destruct D as [D _]. exact D.
+    - exact Ef. }
+  destruct c; simpl in Hc; try discriminate Hc; cbv beta iota delta [step].
+  - (* CSet *) specialize (Hset k v false).
+    destruct (do_set vs ml mi s1 k v false) as [[a st1] rv1].
+    destruct (do_set vs' ml mi s2 k v false) as [[b st2] rv2]. exact Hset.
+  - (* CDel *) apply (Hdel k (fun _ => ONone) (fun _ => ONone)). rewrite !del_failed_core. exact E.
+  - (* CInsert *) specialize (Hset k v true).
+    destruct (do_set vs ml mi s1 k v true) as [[a st1] rv1].
+    destruct (do_set vs' ml mi s2 k v true) as [[b st2] rv2]. exact Hset.
+  - (* CSetdefault *)
+    destruct (tget Z (t_tree s1) k) as [x|] eqn:G.
+    + rewrite Et in G. pose proof (do_set_present vs' s2 k v x G) as P.
+      destruct (do_set vs' ml mi s2 k v true) as [[b st2] rv2]. cbn [fst] in P |- *.
+      rewrite P. exact E.
+    + specialize (Hset k v true).
+      destruct (do_set vs ml mi s1 k v true) as [[a st1] rv1].
+      destruct (do_set vs' ml mi s2 k v true) as [[b st2] rv2]. exact Hset.
+  - (* CPop *) apply (Hdel k OVal OVal). rewrite del_failed_core. exact E.
+  - (* CPopD *) apply (Hdel k OVal OVal). rewrite del_failed_core. exact E.
+  - (* CPopitem *) rewrite Et.
+    destruct (contents Z (t_tree s2)) as [|[k v] r]; [exact E|].
+    apply (Hdel k (fun _ => OKV k v) (fun _ => OKV k v)). exact E.
+  - (* CUpdate *)
+    apply fold_core; [|exact E].
+    intros a u1 u2 Eu.
+    pose proof (do_set_core vs vs' u1 u2 (fst (of_kv a)) (snd (of_kv a)) false Eu) as [D _].
+    destruct (do_set vs ml mi u1 (fst (of_kv a)) (snd (of_kv a)) false) as [[a1 st1] rv1].
+    destruct (do_set vs' ml mi u2 (fst (of_kv a)) (snd (of_kv a)) false) as [[a2 st2] rv2].
+    exact D.
+  - (* CClear *) apply do_clear_core. exact E.
+  - exact E.
+  - exact E.
+  - exact E.
+  - exact E.
+  - exact E.
+  - exact E.
+  - exact E.
+  - exact E.
+  - exact E.
+  - (* CAdd *) specialize (Hset k 0 true).
+    destruct (do_set vs ml mi s1 k 0 true) as [[a st1] rv1].
+    destruct (do_set vs' ml mi s2 k 0 true) as [[b st2] rv2].
+    cbn [fst] in Hset |- *. rewrite !quirk_core. exact Hset.
+  - (* CRemove *) apply (Hdel k (fun _ => ONone) (fun _ => ONone)). rewrite !del_failed_core. exact E.
+  - (* CDiscard *) apply discard_core. exact E.
+  - (* CSPop *) rewrite Et.
+    destruct (contents Z (t_tree s2)) as [|[k v] r]; [exact E|].
+    cbn [fst]. apply discard_core. exact E.
+  - (* CSUpdate *) apply fold_core; [|exact E]. intros a u1 u2 Eu. apply add_core. exact Eu.
+  - (* CIor *) apply fold_core; [|exact E]. intros a u1 u2 Eu. apply add_core. exact Eu.
+  - (* CIsub *) apply fold_core; [|exact E]. intros a u1 u2 Eu. apply discard_core. exact Eu.
+  - (* CIxor *) apply fold_core; [|exact E]. intros a u1 u2 Eu.
+    rewrite (has_core u1 u2 a Eu). destruct (has u2 a); [apply discard_core | apply add_core]; exact Eu.
+  - exact E.
+Qed.
+
+Lemma run_core : forall (vs vs' : bool) (calls : list call) (s1 s2 : st),
+  existsb is_iand calls = false -> core s1 = core s2 ->
+  core (fst (run vs true ml mi s1 calls)) = core (fst (run vs' false ml mi s2 calls)).
+Proof.
+  intros vs vs' calls. induction calls as [|c r IH]; intros s1 s2 Hc E; simpl.
+  - exact E.
+  - simpl in Hc. apply orb_false_iff in Hc. destruct Hc as [Hc Hr].
+    pose proof (step_core vs vs' s1 s2 c Hc E) as S.
+    destruct (step vs true ml mi s1 c) as [a1 o1].
+    destruct (step vs' false ml mi s2 c) as [a2 o2].
+    simpl in S. specialize (IH a1 a2 Hr S).
+    destruct (run vs true ml mi a1 r) as [b1 os1].
+    destruct (run vs' false ml mi a2 r) as [b2 os2].
+    exact IH.
+Qed.
+
+End Core.
+
+Theorem shape_equal : forall (vs vs' : bool) (ml mi : nat) (calls : list call),
+  (1 <= ml)%nat -> (2 <= mi)%nat -> existsb is_iand calls = false ->
+  t_tree (fst (run vs true ml mi init calls)) = t_tree (fst (run vs' false ml mi init calls)).
+Proof.
+  intros vs vs' ml mi calls _ _ Hc.
+  apply core_tree. apply run_core; [exact Hc | reflexivity].
+Qed.
+
+Print Assumptions results_equal.
+Print Assumptions shape_equal.
